@@ -300,19 +300,19 @@ def _(self, customer_order_ref: ATOM, order: Ref("BaseOrder")):
     ensures("trades_others", others_untouched(self._trades, k_trade(order), K_TRADE), ground=True, given=["lists_distinct"], export=False)
     # ---- proof steps (cuts) for the `full` parts
     ensures("strategy_grows", view_grows(self._strategy_orders, K_STRATEGY), export=False)
-    ensures("strategy_full_new", view_full_new(self._strategy_orders, k_strategy(order), order), given=["strategy_appended"], export=False)
+    ensures("strategy_full_new", view_full_new(self._strategy_orders, k_strategy(order), order), ground=True, given=["views_last"], export=False)
     ensures("strategy_full_old", view_full_old(self, self._strategy_orders, k_strategy), given=["strategy_grows"], export=False)
     ensures("selection_grows", view_grows(self._strategy_selection_orders, K_SELECTION), export=False)
-    ensures("selection_full_new", view_full_new(self._strategy_selection_orders, k_selection(order), order), given=["selection_appended"], export=False)
+    ensures("selection_full_new", view_full_new(self._strategy_selection_orders, k_selection(order), order), ground=True, given=["views_last"], export=False)
     ensures("selection_full_old", view_full_old(self, self._strategy_selection_orders, k_selection), given=["selection_grows"], export=False)
     ensures("client_grows", view_grows(self._client_orders, K_CLIENT), export=False)
-    ensures("client_full_new", view_full_new(self._client_orders, k_client(order), order), given=["client_appended"], export=False)
+    ensures("client_full_new", view_full_new(self._client_orders, k_client(order), order), ground=True, given=["views_last"], export=False)
     ensures("client_full_old", view_full_old(self, self._client_orders, k_client), given=["client_grows"], export=False)
     ensures("client_strategy_grows", view_grows(self._client_strategy_orders, K_CLIENT_STRATEGY), export=False)
-    ensures("client_strategy_full_new", view_full_new(self._client_strategy_orders, k_client_strategy(order), order), given=["client_strategy_appended"], export=False)
+    ensures("client_strategy_full_new", view_full_new(self._client_strategy_orders, k_client_strategy(order), order), ground=True, given=["views_last"], export=False)
     ensures("client_strategy_full_old", view_full_old(self, self._client_strategy_orders, k_client_strategy), given=["client_strategy_grows"], export=False)
     ensures("trades_grows", view_grows(self._trades, K_TRADE), export=False)
-    ensures("trades_full_new", view_full_new(self._trades, k_trade(order), order), given=["trades_appended"], export=False)
+    ensures("trades_full_new", view_full_new(self._trades, k_trade(order), order), ground=True, given=["views_last"], export=False)
     ensures("trades_full_old", view_full_old(self, self._trades, k_trade), given=["trades_grows"], export=False)
     ensures("live_holds_new", order in self._live_orders, given=["live_appended"], export=False)
     ensures("live_grows", forall(lambda j: self._live_orders[j] == old(self._live_orders[j]), 0, old(len(self._live_orders))) and len(self._live_orders) >= old(len(self._live_orders)), export=False)
